@@ -1,6 +1,6 @@
 /-
 Model of /repo/src/selectors_vm/attribute_matcher.rs (all of it) and of the part of
-/repo/src/selectors_vm/compiler.rs:143-195 that turns an attribute predicate into a matcher call.
+/repo/src/selectors_vm/compiler.rs:98-191 that turns an attribute predicate into a matcher call.
 
 Abstraction: the Rust `AttributeMatcher` holds the input chunk and an `AttributeBuffer` of
 (name-range, value-range) outlines; the model holds the already sliced `(name, value)` byte strings in
@@ -14,9 +14,9 @@ Case sensitivity (where it is decided):
    `AsciiCaseInsensitive`, no flag ↦ `AsciiCaseInsensitiveIfInHtmlElementInHtmlDocument` if the
    lower-cased attribute name is in the HTML list of 46 names (accept, …, type, …; build.rs), else
    `CaseSensitive`.
- * attribute_matcher.rs:17-35 `to_unconditional` resolves it with
+ * attribute_matcher.rs:18-35 `to_unconditional` resolves it with
    `is_html_element = (ns == Namespace::Html)` (attribute_matcher.rs:56).
- * compiler.rs:129-141: the attribute *name* operand is ASCII-lower-cased at compile time, the value
+ * compiler.rs:112-138: the attribute *name* operand is ASCII-lower-cased at compile time, the value
    operand is taken as is; `find` lower-cases the names of the element's attributes.
 -/
 import LolHtml.Basic
@@ -41,7 +41,7 @@ inductive CaseSensitivity where
   | asciiCaseInsensitive
   deriving Repr, DecidableEq
 
-/-- attribute_matcher.rs:17-35 `to_unconditional` -/
+/-- attribute_matcher.rs:18-35 `to_unconditional` -/
 def toUnconditional (parsed : ParsedCaseSensitivity) (isHtmlElementInHtmlDocument : Bool) :
     CaseSensitivity :=
   match parsed with
@@ -91,15 +91,15 @@ def getAt (xs : Bytes) (n : Nat) : Option UInt8 := xs[n]?
 /-! ### Value-level operators: the closures passed to `value_matches`
 (`actual` = the element's attribute value, `operand` = the selector's value). -/
 
-/-- attribute_matcher.rs:119-124 `attr_eq` closure -/
+/-- attribute_matcher.rs:117-122 `attr_eq` closure -/
 def attrEqV (cs : CaseSensitivity) (actual operand : Bytes) : Bool :=
   cs.eq actual operand
 
-/-- attribute_matcher.rs:127-135 `matches_splitted_by_whitespace` closure -/
+/-- attribute_matcher.rs:125-133 `matches_splitted_by_whitespace` closure -/
 def matchesSplittedByWhitespaceV (cs : CaseSensitivity) (actual operand : Bytes) : Bool :=
   (split isAttrWhitespace actual).any fun part => cs.eq part operand
 
-/-- attribute_matcher.rs:138-151 `has_attr_with_prefix` closure -/
+/-- attribute_matcher.rs:136-148 `has_attr_with_prefix` closure -/
 def hasAttrWithPrefixV (cs : CaseSensitivity) (actual operand : Bytes) : Bool :=
   let prefixLen := operand.length
   !actual.isEmpty
@@ -108,7 +108,7 @@ def hasAttrWithPrefixV (cs : CaseSensitivity) (actual operand : Bytes) : Bool :=
         | some pre => cs.eq pre operand
         | none => false)
 
-/-- attribute_matcher.rs:154-169 `has_dash_matching_attr` closure -/
+/-- attribute_matcher.rs:151-166 `has_dash_matching_attr` closure -/
 def hasDashMatchingAttrV (cs : CaseSensitivity) (actual operand : Bytes) : Bool :=
   if cs.eq actual operand then true
   else
@@ -122,7 +122,7 @@ def hasDashMatchingAttrV (cs : CaseSensitivity) (actual operand : Bytes) : Bool 
 gets an explicit failure branch. -/
 def checkedSub (a b : Nat) : Option Nat := if b ≤ a then some (a - b) else none
 
-/-- attribute_matcher.rs:172-186 `has_attr_with_suffix` closure; `none` = `value_len - suffix_len`
+/-- attribute_matcher.rs:169-182 `has_attr_with_suffix` closure; `none` = `value_len - suffix_len`
 underflows. `&&` short-circuits, so the subtraction is evaluated only after the two guards held. -/
 def hasAttrWithSuffixV (cs : CaseSensitivity) (actual operand : Bytes) : Option Bool :=
   let suffixLen := operand.length
@@ -147,7 +147,7 @@ def memchr2 (lo up : UInt8) : Bytes → Option Nat
   | [] => none
   | h :: t => if h == lo || h == up then some 0 else (memchr2 lo up t).map (· + 1)
 
-/-- attribute_matcher.rs:195-207 the inner `fn search` (a `loop`), with explicit fuel.
+/-- attribute_matcher.rs:191-203 the inner `fn search` (a `loop`), with explicit fuel.
 Each iteration either returns or strictly shortens `haystack`, so `haystack.length + 1` iterations
 suffice (`search_fuel_irrelevant` in `Lemmas/AttrMatch.lean`). Running out of fuel is `none` of the
 *outer* option: it would mean the model, not the code, is wrong. -/
@@ -173,7 +173,7 @@ def search (haystack rest : Bytes) (cs : CaseSensitivity) (firstByteSearcher : B
     Option Bool :=
   searchLoop rest cs firstByteSearcher (haystack.length + 1) haystack
 
-/-- attribute_matcher.rs:189-223 `has_attr_with_substring` closure (`none` = fuel exhausted). -/
+/-- attribute_matcher.rs:185-217 `has_attr_with_substring` closure (`none` = fuel exhausted). -/
 def hasAttrWithSubstringV (cs : CaseSensitivity) (actual operand : Bytes) : Option Bool :=
   match operand with
   | [] => some false                                   -- `split_first()` is `None`
@@ -207,11 +207,11 @@ def AttributeMatcher.find (m : AttributeMatcher) (lowercasedName : Bytes) : Opti
     if a.1.length != lowercasedName.length then false
     else a.1.map toAsciiLowercase == lowercasedName
 
-/-- attribute_matcher.rs:81-84 `get_value` -/
+/-- attribute_matcher.rs:80-83 `get_value` -/
 def AttributeMatcher.getValue (m : AttributeMatcher) (lowercasedName : Bytes) : Option Bytes :=
   (m.find lowercasedName).map (·.2)
 
-/-- attribute_matcher.rs:88-90 `has_attribute` -/
+/-- attribute_matcher.rs:87-89 `has_attribute` -/
 def AttributeMatcher.hasAttribute (m : AttributeMatcher) (lowercasedName : Bytes) : Bool :=
   (m.find lowercasedName).isSome
 
@@ -220,19 +220,19 @@ def idAttr : Bytes := [105, 100]
 /-- attribute_matcher.rs:10 `CLASS_ATTR = b"class"` -/
 def classAttr : Bytes := [99, 108, 97, 115, 115]
 
-/-- attribute_matcher.rs:94-99 `has_id` -/
+/-- attribute_matcher.rs:93-98 `has_id` -/
 def AttributeMatcher.hasId (m : AttributeMatcher) (id : Bytes) : Bool :=
   match m.getValue idAttr with
   | some actualId => actualId == id
   | none => false
 
-/-- attribute_matcher.rs:103-110 `has_class` -/
+/-- attribute_matcher.rs:102-109 `has_class` -/
 def AttributeMatcher.hasClass (m : AttributeMatcher) (className : Bytes) : Bool :=
   match m.getValue classAttr with
   | some cls => (split isAttrWhitespace cls).any fun actual => actual == className
   | none => false
 
-/-- attribute_matcher.rs:113-115 `value_matches` (lifted to closures that may fail) -/
+/-- attribute_matcher.rs:112-114 `value_matches` (lifted to closures that may fail) -/
 def AttributeMatcher.valueMatches (m : AttributeMatcher) (name : Bytes)
     (matcher : Bytes → Option Bool) : Option Bool :=
   match m.getValue name with
@@ -254,15 +254,15 @@ def evalOpV (op : Op) (cs : CaseSensitivity) (actual operand : Bytes) : Option B
   | .suffix => hasAttrWithSuffixV cs actual operand
   | .substring => hasAttrWithSubstringV cs actual operand
 
-/-- attribute_matcher.rs:118-224: `attr_eq`, `matches_splitted_by_whitespace`,
+/-- attribute_matcher.rs:117-217: `attr_eq`, `matches_splitted_by_whitespace`,
 `has_attr_with_prefix`, `has_dash_matching_attr`, `has_attr_with_suffix`, `has_attr_with_substring`,
-selected by the operator as compiler.rs:166-189 does. -/
+selected by the operator as compiler.rs:164-183 does. -/
 def AttributeMatcher.evalOp (m : AttributeMatcher) (op : Op) (operand : AttrExprOperands) :
     Option Bool :=
   m.valueMatches operand.name fun actual =>
     evalOpV op (toUnconditional operand.caseSensitivity m.isHtmlElement) actual operand.value
 
-/-! ### compiler.rs:143-195 — from the parsed predicate to the matcher call -/
+/-! ### compiler.rs:140-191 — from the parsed predicate to the matcher call -/
 
 /-- The attribute part of `OnAttributesExpr` (ast.rs:98-104), with byte-string operands
 (the `Box<str>` literals after `compile_literal`, i.e. encoded in the document encoding). -/
@@ -272,12 +272,13 @@ inductive OnAttributesExpr where
   | attributeExists (name : Bytes)
   | attributeComparison (name value : Bytes) (cs : ParsedCaseSensitivity) (op : Op)
 
-/-- `str::make_ascii_lowercase` on the encoded literal (compiler.rs:121-127) -/
+/-- `str::make_ascii_lowercase` on the literal (compiler.rs:120-126; ASCII-only, so it commutes with
+encoding into an ASCII-compatible document encoding) -/
 def makeAsciiLowercase (bs : Bytes) : Bytes := bs.map toAsciiLowercase
 
-/-- compiler.rs:143-195 `Expr<OnAttributesExpr>::compile`, applied to a matcher
-(`negation` is compiler.rs:103-109). Note that `AttributeExists` does *not* lower-case at compile
-time (compiler.rs:154-155): the parser already hands over `local_name_lower` (ast.rs:126-130). -/
+/-- compiler.rs:140-191 `Expr<OnAttributesExpr>::compile`, applied to a matcher
+(`negation` is compiler.rs:98-108). Note that `AttributeExists` does *not* lower-case at compile
+time (compiler.rs:150-151): the parser already hands over `local_name_lower` (ast.rs:126-130). -/
 def compiledAttrExpr (negation : Bool) (e : OnAttributesExpr) (m : AttributeMatcher) : Option Bool :=
   let r : Option Bool :=
     match e with
